@@ -2,10 +2,11 @@
    complete; when one root runs out of space mid-write and another reports more free space the write
    continues there and the stored bytes equal the source exactly.
 
-   THIS REVISION COVERS THE INLINE CLIENT (usecase/store.Set reached through Set, SetReader,
-   Create+Write*+Close): source-reader failures and no-space faults (all-or-nothing and partial
-   writes) on any subset of the roots.  The gRPC abort paths (cancelled uploads, stream reader/writer
-   errors; findings D4, D5) are added by a later revision on the Stream model.
+   Inline client (usecase/store.Set reached through Set, SetReader, Create+Write*+Close):
+   source-reader failures and no-space faults (all-or-nothing and partial writes) on any subset of
+   the roots (model Faults.v).  gRPC client: the server's store use case reads the upload through
+   streamreader.Read (model Stream.v, finding D4); the C10_grpc_* theorems compose that reader with
+   the write path: an aborted stream is never stored, a stored upload holds exactly the chunks.
 
    Statements only; proofs are [exact <lemma of FaultsProofs>] or a few lines.  Model: Faults.v.
    [store_fixed buf] is the repaired write path, [store_orig buf] the pinned tree (findings D16, D17);
@@ -17,7 +18,7 @@
    the continuation theorem asks for a fault-free candidate that reports more than every candidate
    before it; [C10_minsize_example] shows the loop's answer when a later root reports less. *)
 From Coq Require Import List NArith Bool Lia.
-From FsDb Require Import Core Faults FaultsProofs.
+From FsDb Require Import Core Faults FaultsProofs Stream StreamProofs.
 Import ListNotations.
 Open Scope N_scope.
 
@@ -200,6 +201,48 @@ Proof.
   constructor; [left; reflexivity|constructor].
 Qed.
 
+(* ---------- the gRPC upload path (Stream.v: streamreader.Read feeding store.Set) ---------- *)
+
+(* an upload whose stream is aborted - after any chunks, read with any buffer length n, for every
+   candidate order and every fault plan - is never stored; by C10_failure_no_trace it leaves no trace *)
+Theorem C10_grpc_abort_never_stored :
+  forall (cs : list (list N)) (n fuel : nat) src buf order, (0 < n)%nat ->
+    sr_source false n fuel (sr_init cs true) = Some src ->
+    exists e, res_out (set_run (store_fixed buf) order src) = Err e.
+Proof. exact grpc_abort_never_stored. Qed.
+
+(* an upload that ends cleanly and is reported as stored holds exactly the chunks that were sent, in order *)
+Theorem C10_grpc_upload_exact :
+  forall (cs : list (list N)) (n fuel : nat) src buf order r content, (0 < n)%nat ->
+    sr_source false n fuel (sr_init cs false) = Some src ->
+    res_out (set_run (store_fixed buf) order src) = Stored r content ->
+    content = concat cs.
+Proof. exact grpc_upload_exact. Qed.
+
+(* the consumer's loop ends: every data result carries at least one byte (fuel is not a restriction) *)
+Theorem C10_grpc_reader_terminates :
+  forall (cs : list (list N)) ab (n fuel : nat), (0 < n)%nat -> (length (concat cs) < fuel)%nat ->
+    exists src, sr_source false n fuel (sr_init cs ab) = Some src.
+Proof. exact grpc_reader_terminates. Qed.
+
+(* whatever the buffer lengths of the individual Reads, what has been delivered is a prefix of the upload *)
+Theorem C10_grpc_reads_prefix :
+  forall (cs : list (list N)) ab sizes,
+    exists rest, concat cs = sr_delivered (sr_run false cs ab sizes) ++ rest.
+Proof. intros cs ab sizes. exact (sr_reads_prefix sizes (sr_init cs ab)). Qed.
+
+(* finding D4 (repaired by /repo 6fa21e9): the original reader turned an abort into a clean end *)
+Theorem C10_grpc_abort_refuted_orig :
+  exists (cs : list (list N)) n fuel src,
+    sr_source true n fuel (sr_init cs true) = Some src /\ src_fails src = false /\ src_bytes src = concat cs.
+Proof. exact grpc_abort_refuted_orig. Qed.
+
+(* non-vacuity: a two-chunk upload aborted after the second chunk, read with 3-byte buffers *)
+Example C10_grpc_example_abort :
+  sr_source false 3 9 (sr_init [[1; 2]; [3; 4; 5]] true) = Some [Data [1; 2; 3]; Fail] /\
+  sr_source false 3 9 (sr_init [[1; 2]; [3; 4; 5]] false) = Some [Data [1; 2; 3]; Data [4; 5]].
+Proof. vm_compute. auto. Qed.
+
 Print Assumptions C10_success_is_exact.
 Print Assumptions C10_reader_failure_fails.
 Print Assumptions C10_failure_no_trace.
@@ -211,3 +254,8 @@ Print Assumptions C10_success_is_exact_refuted_orig.
 Print Assumptions C10_success_is_exact_partial_orig.
 Print Assumptions C10_continues_on_other_root_refuted_orig.
 Print Assumptions C10_continues_two_roots_partial_orig.
+Print Assumptions C10_grpc_abort_never_stored.
+Print Assumptions C10_grpc_upload_exact.
+Print Assumptions C10_grpc_reader_terminates.
+Print Assumptions C10_grpc_reads_prefix.
+Print Assumptions C10_grpc_abort_refuted_orig.
